@@ -137,22 +137,30 @@ func (env *SpecEnv) lookupName(name string) (Val, bool, error) {
 			return v, true, nil
 		}
 		// a local the contract names but the code no longer has: the contract recorded the
-		// function's locals in declaration order; the local now declared at the same position is
-		// the renamed one (only tried when the function still declares as many locals)
+		// function's locals (declaration order) when it was written. The names that disappeared
+		// and the names that are new are paired in order of appearance (a renaming keeps the
+		// number of locals); the invariant is still checked, so a wrong pairing cannot prove anything.
 		if !env.noPositional {
 			if fc := env.x.contractFor(env.fr.fn); fc != nil && len(fc.Locals) > 0 {
 				now := declaredLocals(env.fr.fn)
-				if len(now) == len(fc.Locals) {
-					known := map[string]bool{}
-					for _, n := range now {
-						known[n] = true
+				if !inList(now, name) && inList(fc.Locals, name) {
+					var gone, fresh []string
+					for _, n := range fc.Locals {
+						if !inList(now, n) && !inList(gone, n) {
+							gone = append(gone, n)
+						}
 					}
-					if !known[name] {
-						for i, ln := range fc.Locals {
-							if ln == name && now[i] != name && !inList(fc.Locals, now[i]) {
+					for _, n := range now {
+						if !inList(fc.Locals, n) && !inList(fresh, n) {
+							fresh = append(fresh, n)
+						}
+					}
+					if len(gone) == len(fresh) {
+						for k, g := range gone {
+							if g == name {
 								sub := *env
 								sub.noPositional = true
-								if v, ok, err := sub.lookupName(now[i]); ok || err != nil {
+								if v, ok, err := sub.lookupName(fresh[k]); ok || err != nil {
 									return v, ok, err
 								}
 							}
